@@ -307,4 +307,351 @@ theorem expand_out_row (g : Graph) (hnp : NoParallel g) (r : Row) (a : Nat) (rel
   rw [hfun]
   rfl
 
+/-! ### incoming and undirected hops: the engine binds the destination before the relationship variable, the
+    reference the other way round — rows agree up to column order (`Row.Equiv`) -/
+
+/-- same bindings, possibly in another column order -/
+def Row.Equiv (r r' : Row) : Prop := ∀ x, r.get x = r'.get x
+
+theorem Row.Equiv.refl (r : Row) : Row.Equiv r r := fun _ => rfl
+
+/-- position-wise equivalent tables -/
+def RowsEquiv : Table → Table → Prop
+  | [], [] => True
+  | a :: as, b :: bs => Row.Equiv a b ∧ RowsEquiv as bs
+  | _, _ => False
+
+theorem RowsEquiv.refl : ∀ T : Table, RowsEquiv T T
+  | [] => trivial
+  | r :: rs => ⟨Row.Equiv.refl r, RowsEquiv.refl rs⟩
+
+theorem RowsEquiv.append {a b c d : Table} (h1 : RowsEquiv a b) (h2 : RowsEquiv c d) : RowsEquiv (a ++ c) (b ++ d) := by
+  induction a generalizing b with
+  | nil => cases b with
+    | nil => simpa using h2
+    | cons _ _ => exact absurd h1 (by simp [RowsEquiv])
+  | cons x xs ih => cases b with
+    | nil => exact absurd h1 (by simp [RowsEquiv])
+    | cons y ys => exact ⟨h1.1, ih h1.2⟩
+
+theorem RowsEquiv.flatMap {α} (l : List α) (f g : α → Table) (h : ∀ x ∈ l, RowsEquiv (f x) (g x)) :
+    RowsEquiv (l.flatMap f) (l.flatMap g) := by
+  induction l with
+  | nil => trivial
+  | cons x xs ih =>
+    simp only [List.flatMap_cons]
+    exact RowsEquiv.append (h x (by simp)) (ih fun y hy => h y (List.mem_cons_of_mem _ hy))
+
+/-- the same bag of rows up to column order -/
+def TableEquiv (T T' : Table) : Prop := ∃ T'', T.Perm T'' ∧ RowsEquiv T'' T'
+
+theorem set_comm_equiv (r : Row) (x y : String) (v w : Val) (h : x ≠ y) :
+    Row.Equiv ((r.set x v).set y w) ((r.set y w).set x v) := by
+  intro z
+  by_cases hzx : z = x
+  · subst hzx
+    rw [Row.get_set_ne _ y z w h, Row.get_set_self, Row.get_set_self]
+  · by_cases hzy : z = y
+    · subst hzy
+      rw [Row.get_set_self, Row.get_set_ne _ x z v hzx, Row.get_set_self]
+    · rw [Row.get_set_ne _ y z w hzy, Row.get_set_ne _ x z v hzx, Row.get_set_ne _ x z v hzx,
+        Row.get_set_ne _ y z w hzy]
+
+/-- destination-then-relationship (engine, MatchIn / MatchUndirected) vs relationship-then-destination
+    (reference) -/
+theorem withOpt_set_equiv (rs : Row) (ev : Option String) (d : String) (v w : Val)
+    (h : ∀ x, ev = some x → x ≠ d) :
+    Row.Equiv (Exec.withOpt (rs.set d v) ev w) ((Exec.withOpt rs ev w).set d v) := by
+  cases ev with
+  | none => exact Row.Equiv.refl _
+  | some x => exact set_comm_equiv rs d x v w (fun hh => h x rfl hh.symm)
+
+/-- the common shape of `stepIn`, `stepInNoLoop`, `stepOutU`: candidates `cands`, `tgt e` the node reached,
+    `frm e` the node left -/
+def stepGen (g : Graph) (cands : List RelId) (tgt frm : RelId → Nat) (r : Row) (ev : Option String) (d : String)
+    (dl : List String) (pa : String) : List Row :=
+  cands.filterMap fun e =>
+    if Exec.pathContains g r (some pa) e || !Exec.nodeBindingOk r d (tgt e) || !Exec.labelsOk g (tgt e) dl then none
+    else some (Exec.joinPathOpt (Exec.withOpt (r.set d (.node (tgt e))) ev (.rel e)) (some pa) (frm e) e (tgt e))
+
+/-- what the reference does with one candidate (relationship identity, node reached) -/
+def specCand (A : Algebra) (g : Graph) (used : List RelId) (rs : Row) (rp : RelPat) (np : NodePat)
+    (c : RelId × Nat) : List (Row × List RelId) :=
+  if used.contains c.1 || !(Spec.relOk A { g } rs rp c.1 && Spec.nodeOk A { g } rs np c.2) then []
+  else match (Spec.bind rs rp.var (.rel c.1)).bind (Spec.bind · np.var (.node c.2)) with
+    | none => []
+    | some r' => [(r', c.1 :: used)]
+
+theorem matchSteps_single (g : Graph) (used : List RelId) (cur : Nat) (rs : Row) (rp : RelPat) (np : NodePat) :
+    Spec.matchSteps A { g } used cur rs [(rp, np)] =
+      (Spec.traversals g cur rp).flatMap (specCand A g used rs rp np) := by
+  simp only [Spec.matchSteps]
+  rfl
+
+/-- one candidate, destination-then-relationship order -/
+theorem stepGen_cand (g : Graph) (hnp : NoParallel g) (r : Row) (rels : List String) (dir : Dir)
+    (ev : Option String) (d pa : String) (dl : List String) (used : List RelId) (e : RelId) (n a : Nat)
+    (hpa : PathRel r pa used) (hd : d ≠ pa)
+    (hev : ∀ x, ev = some x → x ≠ pa ∧ x ≠ d ∧ r.get x = none) :
+    RowsEquiv
+      (((if Exec.pathContains g r (some pa) e || !Exec.nodeBindingOk r d n || !Exec.labelsOk g n dl then none
+        else some (Exec.joinPathOpt (Exec.withOpt (r.set d (.node n)) ev (.rel e)) (some pa) a e n)).map
+          (eraseCol pa)).toList)
+      ((specCand A g used (eraseCol pa r) ⟨ev, rels, dir, []⟩ ⟨some d, dl, []⟩ (e, n)).map (·.1)) := by
+  have hb : Exec.nodeBindingOk (eraseCol pa r) d n = Exec.nodeBindingOk r d n := by
+    simp only [Exec.nodeBindingOk, get_eraseCol_ne pa d r hd]
+  have hchain := bind_chain (eraseCol pa r) ev d e n (fun x hx =>
+    ⟨(hev x hx).2.1, by rw [get_eraseCol_ne pa x r (hev x hx).1]; exact (hev x hx).2.2⟩)
+  unfold specCand
+  simp only []
+  rw [hchain, hb, pathContains_eq g hnp r pa used e hpa]
+  simp only [Spec.relOk, Spec.propsOk, List.all_nil, Spec.nodeOk, Bool.and_true, Bool.true_and, Exec.labelsOk]
+  by_cases hu : used.contains e = true
+  · have hmem : e ∈ used := by simpa using hu
+    simp [hmem, RowsEquiv]
+  · have hu' : used.contains e = false := by simpa using hu
+    by_cases hl : dl.all (g.hasLabel n) = true
+    · by_cases hn : Exec.nodeBindingOk r d n = true
+      · simp only [hu', hl, hn, Bool.not_true, Bool.or_self, Bool.false_eq_true, ↓reduceIte, Option.map_some,
+          Option.toList_some, List.map_cons, List.map_nil, Exec.joinPathOpt, RowsEquiv, and_true]
+        rw [eraseCol_joinPath, eraseCol_withOpt pa _ ev _ (fun x hx => (hev x hx).1), eraseCol_set_ne pa d _ _ hd]
+        exact withOpt_set_equiv _ ev d _ _ (fun x hx => (hev x hx).2.1)
+      · have hn' : Exec.nodeBindingOk r d n = false := by simpa using hn
+        simp [hu', hl, hn', RowsEquiv]
+    · have hl' : dl.all (g.hasLabel n) = false := by simpa using hl
+      simp [hu', hl', RowsEquiv]
+
+/-- a whole candidate list -/
+theorem stepGen_equiv (g : Graph) (hnp : NoParallel g) (cands : List RelId) (tgt frm : RelId → Nat) (r : Row)
+    (rels : List String) (dir : Dir) (ev : Option String) (d pa : String) (dl : List String) (used : List RelId)
+    (hpa : PathRel r pa used) (hd : d ≠ pa)
+    (hev : ∀ x, ev = some x → x ≠ pa ∧ x ≠ d ∧ r.get x = none) :
+    RowsEquiv ((stepGen g cands tgt frm r ev d dl pa).map (eraseCol pa))
+      (((cands.map fun e => (e, tgt e)).flatMap
+        (specCand A g used (eraseCol pa r) ⟨ev, rels, dir, []⟩ ⟨some d, dl, []⟩)).map (·.1)) := by
+  unfold stepGen
+  rw [filterMap_map_eq_flatMap, List.map_flatMap, List.flatMap_map]
+  apply RowsEquiv.flatMap
+  intro e _
+  exact stepGen_cand A g hnp r rels dir ev d pa dl used e (tgt e) (frm e) hpa hd hev
+
+theorem RowsEquiv.perm_right {X Y Y' : Table} (h : RowsEquiv X Y) (hp : Y.Perm Y') :
+    ∃ X', X.Perm X' ∧ RowsEquiv X' Y' := by
+  induction hp generalizing X with
+  | nil => exact ⟨X, List.Perm.refl _, h⟩
+  | cons y _ ih =>
+    cases X with
+    | nil => exact absurd h (by simp [RowsEquiv])
+    | cons x xs =>
+      obtain ⟨xs', hp', he'⟩ := ih h.2
+      exact ⟨x :: xs', List.Perm.cons x hp', h.1, he'⟩
+  | swap a b l =>
+    match X, h with
+    | x1 :: x2 :: xs, h => exact ⟨x2 :: x1 :: xs, List.Perm.swap x2 x1 xs, h.2.1, h.1, h.2.2⟩
+  | trans _ _ ih1 ih2 =>
+    obtain ⟨X1, hp1, he1⟩ := ih1 h
+    obtain ⟨X2, hp2, he2⟩ := ih2 he1
+    exact ⟨X2, hp1.trans hp2, he2⟩
+
+theorem TableEquiv.of {T T1 S1 S : Table} (h1 : T.Perm T1) (h2 : RowsEquiv T1 S1) (h3 : S1.Perm S) :
+    TableEquiv T S := by
+  obtain ⟨X, hp, he⟩ := h2.perm_right h3
+  exact ⟨X, h1.trans hp, he⟩
+
+theorem RowsEquiv.map_fst_nil : RowsEquiv [] [] := trivial
+
+theorem flatMap_append_perm' {α β} (l : List α) (f g : α → List β) :
+    (l.flatMap fun x => f x ++ g x).Perm (l.flatMap f ++ l.flatMap g) := by
+  induction l with
+  | nil => simp
+  | cons x xs ih =>
+    simp only [List.flatMap_cons]
+    have h1 : (f x ++ g x ++ List.flatMap (fun x => f x ++ g x) xs).Perm
+        (f x ++ g x ++ (List.flatMap f xs ++ List.flatMap g xs)) := List.Perm.append_left _ ih
+    refine h1.trans ?_
+    rw [List.append_assoc, List.append_assoc]
+    apply List.Perm.append_left
+    rw [← List.append_assoc, ← List.append_assoc]
+    exact List.Perm.append_right _ List.perm_append_comm
+
+/-- incoming candidates: reference traversal = engine enumeration, as bags -/
+theorem traversals_in_perm (g : Graph) (a : Nat) (ev : Option String) (rels : List String) (ps : List (String × Expr))
+    (hnd : rels.Nodup) :
+    (Spec.traversals g a ⟨ev, rels, .inn, ps⟩).Perm ((Exec.inEdges g a rels).map fun e => (e, e.src)) := by
+  have hflat : Spec.traversals g a ⟨ev, rels, .inn, ps⟩ =
+      (g.copies.filter fun e => (rels.isEmpty || rels.contains e.typ) && e.dst == a).map fun e => (e, e.src) := by
+    unfold Spec.traversals
+    induction g.copies with
+    | nil => rfl
+    | cons e es ih =>
+      simp only [List.flatMap_cons, List.filter_cons, ih]
+      cases h1 : (rels.isEmpty || rels.contains e.typ) <;> cases h2 : (e.dst == a) <;> simp [h1, h2]
+  rw [hflat]
+  apply List.Perm.map
+  unfold Exec.inEdges
+  cases hrel : rels.isEmpty
+  · simp only [Bool.false_or, Bool.false_eq_true, ↓reduceIte]
+    exact filter_types_perm g.copies (fun e => e.dst == a) rels hnd
+  · simp
+
+theorem stepIn_eq_stepGen (g : Graph) (r : Row) (a : Nat) (rels : List String) (ev : Option String) (d : String)
+    (dl : List String) (pa : String) :
+    Exec.stepIn g r a rels ev d dl (some pa) = stepGen g (Exec.inEdges g a rels) (·.src) (·.dst) r ev d dl pa := rfl
+
+/-- **operator lemma 2 (incoming hop, one input row)** — as `expand_out_row`, for MatchIn; the rows agree up to
+    column order. -/
+theorem expand_in_row (g : Graph) (hnp : NoParallel g) (r : Row) (a : Nat) (rels : List String)
+    (hrels : rels.Nodup) (ev : Option String) (d pa : String) (dl : List String) (used : List RelId)
+    (hpa : PathRel r pa used) (hd : d ≠ pa)
+    (hev : ∀ x, ev = some x → x ≠ pa ∧ x ≠ d ∧ r.get x = none) :
+    TableEquiv ((Exec.stepIn g r a rels ev d dl (some pa)).map (eraseCol pa))
+      ((Spec.matchSteps A { g } used a (eraseCol pa r) [(⟨ev, rels, .inn, []⟩, ⟨some d, dl, []⟩)]).map (·.1)) := by
+  rw [stepIn_eq_stepGen, matchSteps_single]
+  refine TableEquiv.of (List.Perm.refl _)
+    (stepGen_equiv A g hnp _ (·.src) (·.dst) r rels .inn ev d pa dl used hpa hd hev) ?_
+  exact (List.Perm.map _ (List.Perm.flatMap_right _ (traversals_in_perm g a ev rels [] hrels))).symm
+
+/-! ### undirected hop (outgoing half, then incoming half without self-loops) -/
+
+def insNoLoop (g : Graph) (a : Nat) (rels : List String) : List RelId :=
+  (Exec.inEdges g a rels).filter fun e => e.src != e.dst
+
+theorem stepOutU_eq_stepGen (g : Graph) (r : Row) (a : Nat) (rels : List String) (ev : Option String) (d : String)
+    (dl : List String) (pa : String) :
+    Exec.stepOutU g r a rels ev d dl (some pa) = stepGen g (Exec.outEdges g a rels) (·.dst) (·.src) r ev d dl pa := rfl
+
+theorem stepInNoLoop_eq_stepGen (g : Graph) (r : Row) (a : Nat) (rels : List String) (ev : Option String)
+    (d : String) (dl : List String) (pa : String) :
+    Exec.stepInNoLoop g r a rels ev d dl (some pa) = stepGen g (insNoLoop g a rels) (·.src) (·.dst) r ev d dl pa := by
+  unfold Exec.stepInNoLoop stepGen insNoLoop
+  rw [List.filterMap_filter]
+  congr 1
+  funext e
+  cases h : (e.src == e.dst) <;> simp [h, bne]
+
+theorem outEdges_single_flatMap (g : Graph) (a : Nat) (rels : List String) (h : rels.isEmpty = false) :
+    (rels.flatMap fun t => Exec.outEdges g a [t]) = Exec.outEdges g a rels := by
+  simp [Exec.outEdges, h]
+
+theorem inEdges_single_flatMap (g : Graph) (a : Nat) (rels : List String) (h : rels.isEmpty = false) :
+    (rels.flatMap fun t => Exec.inEdges g a [t]) = Exec.inEdges g a rels := by
+  simp [Exec.inEdges, h]
+
+theorem stepGen_flatMap {α} (g : Graph) (l : List α) (c : α → List RelId) (tgt frm : RelId → Nat) (r : Row)
+    (ev : Option String) (d : String) (dl : List String) (pa : String) :
+    (l.flatMap fun t => stepGen g (c t) tgt frm r ev d dl pa) = stepGen g (l.flatMap c) tgt frm r ev d dl pa := by
+  unfold stepGen
+  rw [List.filterMap_flatMap]
+
+theorem stepGen_append (g : Graph) (c1 c2 : List RelId) (tgt frm : RelId → Nat) (r : Row)
+    (ev : Option String) (d : String) (dl : List String) (pa : String) :
+    stepGen g (c1 ++ c2) tgt frm r ev d dl pa = stepGen g c1 tgt frm r ev d dl pa ++ stepGen g c2 tgt frm r ev d dl pa := by
+  unfold stepGen
+  rw [List.filterMap_append]
+
+/-- the rows of an undirected step: the outgoing candidates, then the incoming non-loop candidates -/
+theorem stepBoth_perm (g : Graph) (r : Row) (a : Nat) (rels : List String) (ev : Option String) (d : String)
+    (dl : List String) (pa : String) :
+    (Exec.stepBoth g r a rels ev d dl (some pa)).Perm
+      (stepGen g (Exec.outEdges g a rels) (·.dst) (·.src) r ev d dl pa ++
+        stepGen g (insNoLoop g a rels) (·.src) (·.dst) r ev d dl pa) := by
+  unfold Exec.stepBoth
+  cases h : rels.isEmpty
+  · simp only [Bool.false_eq_true, ↓reduceIte]
+    refine (flatMap_append_perm' rels _ _).trans ?_
+    have h1 : (rels.flatMap fun t => Exec.stepOutU g r a [t] ev d dl (some pa)) =
+        stepGen g (Exec.outEdges g a rels) (·.dst) (·.src) r ev d dl pa := by
+      simp only [stepOutU_eq_stepGen]
+      rw [stepGen_flatMap, outEdges_single_flatMap g a rels h]
+    have h2 : (rels.flatMap fun t => Exec.stepInNoLoop g r a [t] ev d dl (some pa)) =
+        stepGen g (insNoLoop g a rels) (·.src) (·.dst) r ev d dl pa := by
+      simp only [stepInNoLoop_eq_stepGen]
+      rw [stepGen_flatMap]
+      congr 1
+      unfold insNoLoop
+      rw [← inEdges_single_flatMap g a rels h, List.filter_flatMap]
+    rw [h1, h2]
+  · have hr : rels = [] := by simpa using h
+    subst hr
+    simp only [↓reduceIte, stepOutU_eq_stepGen, stepInNoLoop_eq_stepGen]
+    exact List.Perm.refl _
+
+/-- undirected candidates: reference traversal (a self-loop once) = engine enumeration, as bags -/
+theorem traversals_both_perm (g : Graph) (a : Nat) (ev : Option String) (rels : List String)
+    (ps : List (String × Expr)) (hnd : rels.Nodup) :
+    (Spec.traversals g a ⟨ev, rels, .both, ps⟩).Perm
+      (((Exec.outEdges g a rels).map fun e => (e, e.dst)) ++ ((insNoLoop g a rels).map fun e => (e, e.src))) := by
+  have hsplit : Spec.traversals g a ⟨ev, rels, .both, ps⟩ =
+      g.copies.flatMap fun e =>
+        (if (rels.isEmpty || rels.contains e.typ) && e.src == a then [(e, e.dst)] else []) ++
+        (if (rels.isEmpty || rels.contains e.typ) && (e.dst == a && e.src != e.dst) then [(e, e.src)] else []) := by
+    unfold Spec.traversals
+    congr 1
+    funext e
+    cases h1 : (rels.isEmpty || rels.contains e.typ) <;> simp [h1]
+  rw [hsplit]
+  refine (flatMap_append_perm' _ _ _).trans (List.Perm.append ?_ ?_)
+  · have : (g.copies.flatMap fun e =>
+        if (rels.isEmpty || rels.contains e.typ) && e.src == a then [(e, e.dst)] else []) =
+        (g.copies.filter fun e => (rels.isEmpty || rels.contains e.typ) && e.src == a).map fun e => (e, e.dst) := by
+      induction g.copies with
+      | nil => rfl
+      | cons e es ih =>
+        simp only [List.flatMap_cons, List.filter_cons, ih]
+        cases h : ((rels.isEmpty || rels.contains e.typ) && e.src == a) <;> simp [h]
+    rw [this]
+    apply List.Perm.map
+    unfold Exec.outEdges
+    cases hrel : rels.isEmpty
+    · simp only [Bool.false_or, Bool.false_eq_true, ↓reduceIte]
+      exact filter_types_perm g.copies (fun e => e.src == a) rels hnd
+    · simp
+  · have : (g.copies.flatMap fun e =>
+        if (rels.isEmpty || rels.contains e.typ) && (e.dst == a && e.src != e.dst) then [(e, e.src)] else []) =
+        (g.copies.filter fun e => (rels.isEmpty || rels.contains e.typ) && (e.dst == a && e.src != e.dst)).map
+          fun e => (e, e.src) := by
+      induction g.copies with
+      | nil => rfl
+      | cons e es ih =>
+        simp only [List.flatMap_cons, List.filter_cons, ih]
+        cases h : ((rels.isEmpty || rels.contains e.typ) && (e.dst == a && e.src != e.dst)) <;> simp [h]
+    rw [this]
+    apply List.Perm.map
+    unfold insNoLoop Exec.inEdges
+    cases hrel : rels.isEmpty
+    · simp only [Bool.false_or, Bool.false_eq_true, ↓reduceIte]
+      refine (filter_types_perm g.copies (fun e => e.dst == a && e.src != e.dst) rels hnd).trans ?_
+      rw [List.filter_flatMap]
+      apply List.Perm.of_eq
+      congr 1
+      funext t
+      rw [List.filter_filter]
+      apply List.filter_congr
+      intro e _
+      cases (e.dst == a) <;> cases (e.typ == t) <;> cases (e.src != e.dst) <;> rfl
+    · simp only [Bool.true_or, Bool.true_and, ↓reduceIte, List.filter_filter]
+      apply List.Perm.of_eq
+      apply List.filter_congr
+      intro e _
+      cases (e.dst == a) <;> cases (e.src != e.dst) <;> rfl
+
+/-- **operator lemma 2 (undirected hop, one input row)** — MatchUndirected against one undirected step of the
+    reference matching, including the self-loop rule (a loop is walked once). -/
+theorem expand_both_row (g : Graph) (hnp : NoParallel g) (r : Row) (a : Nat) (rels : List String)
+    (hrels : rels.Nodup) (ev : Option String) (d pa : String) (dl : List String) (used : List RelId)
+    (hpa : PathRel r pa used) (hd : d ≠ pa)
+    (hev : ∀ x, ev = some x → x ≠ pa ∧ x ≠ d ∧ r.get x = none) :
+    TableEquiv ((Exec.stepBoth g r a rels ev d dl (some pa)).map (eraseCol pa))
+      ((Spec.matchSteps A { g } used a (eraseCol pa r) [(⟨ev, rels, .both, []⟩, ⟨some d, dl, []⟩)]).map (·.1)) := by
+  rw [matchSteps_single]
+  refine TableEquiv.of (S1 := ((((Exec.outEdges g a rels).map fun e => (e, e.dst)) ++
+      ((insNoLoop g a rels).map fun e => (e, e.src))).flatMap
+      (specCand A g used (eraseCol pa r) ⟨ev, rels, .both, []⟩ ⟨some d, dl, []⟩)).map (·.1))
+    (List.Perm.map _ (stepBoth_perm g r a rels ev d dl pa)) ?_ ?_
+  · rw [List.map_append, List.flatMap_append, List.map_append]
+    exact RowsEquiv.append
+      (stepGen_equiv A g hnp _ (·.dst) (·.src) r rels .both ev d pa dl used hpa hd hev)
+      (stepGen_equiv A g hnp _ (·.src) (·.dst) r rels .both ev d pa dl used hpa hd hev)
+  · exact (List.Perm.map _ (List.Perm.flatMap_right _ (traversals_both_perm g a ev rels [] hrels))).symm
+
 end Nervus.Cy
